@@ -56,7 +56,7 @@ func init() {
 	reg("C07", propCfg{Quick: tierCfg{Checks: 3000, Timeout: 8 * m}, Thor: tierCfg{Checks: 300000, Timeout: 60 * m}})
 	reg("C08", propCfg{Quick: tierCfg{Checks: 5000, Timeout: 8 * m}, Thor: tierCfg{Checks: 400000, Timeout: 60 * m}})
 	reg("C09", propCfg{Quick: tierCfg{Checks: 6000, Timeout: 8 * m}, Thor: tierCfg{Checks: 500000, Timeout: 60 * m}})
-	reg("C10", propCfg{Quick: tierCfg{Checks: 60000, Timeout: 8 * m}, Thor: tierCfg{Checks: 6000000, Timeout: 60 * m}})
+	reg("C10", propCfg{Quick: tierCfg{Checks: 200000, Timeout: 8 * m}, Thor: tierCfg{Checks: 6000000, Timeout: 60 * m}})
 	reg("C11", propCfg{Quick: tierCfg{Checks: 4000, Timeout: 8 * m}, Thor: tierCfg{Checks: 400000, Timeout: 60 * m}})
 	reg("C12", propCfg{Quick: tierCfg{Checks: 6000, Timeout: 8 * m}, Thor: tierCfg{Checks: 500000, Timeout: 60 * m}})
 	reg("C13", propCfg{Quick: tierCfg{Checks: 3000, Timeout: 8 * m}, Thor: tierCfg{Checks: 200000, Timeout: 60 * m}})
